@@ -2164,6 +2164,14 @@ def run_c20(ctx):
                 recs2 = recs[:pos] + [r] + recs[pos:]
             b = ctrl_bytes(b''.join(recs2))
         inj.append('DEC\t%d\t%s' % (opt, b.hex())); want.append('Err [%s]' % e)
+    # every text site x length class x class of UTF-8 defect x position, inside an otherwise valid message
+    for (tag, t, pay, ok) in utf8_grid(rng):
+        if ok:
+            continue
+        recs = rand_body(rng, rng.randrange(1, 4))
+        pos = rng.randrange(1, len(recs) + 1)
+        b = ctrl_bytes(b''.join(recs[:pos] + [avp_rec(t, pay, m=rng.choice([0, 1]))] + recs[pos:]))
+        inj.append('DEC\t2\t%s' % b.hex()); want.append('Err [InvalidUtf8(%d)]' % t)
     ri = run_compare(ctx, rep, inj, ['fault_injection'] * len(inj), lambda c, r: r)
     for w in IMPLS:
         for c, e, r in zip(inj, want, ri[w]):
